@@ -331,6 +331,17 @@ func structural(api *resolve.APIClient, p *nPkg, v *nVer, st *stats) (string, st
 		if err != nil || len(ms) != 1 || ms[0].VersionKey != vs[0].VersionKey {
 			return fmt.Sprintf("MatchingVersions(%s, %q) = %v, %v", d.name, d.version, ms, err), "the parent's requirement matches exactly the bundled version"
 		}
+		// ... and the calls agree on a version the package does not have
+		other := d.version + "-0"
+		if ms, err := api.MatchingVersions(ctx, resolve.VersionKey{PackageKey: pk, VersionType: resolve.Requirement, Version: other}); err != nil || len(ms) != 0 {
+			return fmt.Sprintf("MatchingVersions(%s, %q) = %v, %v", d.name, other, ms, err), "no match: the package has the single version " + d.version
+		}
+		if one, err := api.Version(ctx, vkC(d.name, other)); !errors.Is(err, resolve.ErrNotFound) {
+			return fmt.Sprintf("Version(%s@%s) = %v, %v although the package has the single version %s", d.name, other, one.VersionKey, err, d.version), "not found, as Versions and MatchingVersions say"
+		}
+		if rs, err := api.Requirements(ctx, vkC(d.name, other)); !errors.Is(err, resolve.ErrNotFound) {
+			return fmt.Sprintf("Requirements(%s@%s) = %s, %v although the package has the single version %s", d.name, other, reqList(rs), err, d.version), "not found, as Versions and MatchingVersions say"
+		}
 	}
 	return "", ""
 }
